@@ -56,16 +56,74 @@ def coq_xop(h):
         return f"(XAdvance {cz(h[1])})"
     if k == "pop":
         return f"(XPopWaiter {cz(h[1])})"
+    if k == "relall":
+        return f"(XReleaseAll {cz(h[1])})"
+    if k == "shutdown":
+        return "XShutdown"
+    if k == "maintain":
+        return "XMaintain"
+    if k == "reg":
+        return f"(XRegister {cz(h[1])} {cbool(h[2])})"
     return f"(XHop {coq_hop(h)})"
 
 
-def xstep(w, h):
+def events_of(h, ret):
+    """The (operation, reason) pairs of the watchdog pass of a `wd` / `maintain` step, flat."""
+    if h[0] == "maintain":
+        return ret[1 + 3 * ret[0]:] if ret and ret[0] >= 0 else []
+    return ret
+
+
+def xstep(w, h, ref=None):
     """One call of the extended alphabet on the real objects -> canonical return value.
     The calls that are not acquisitions: priority inheritance (priority.py), a plain assignment to
-    OperationContext.priority, a plain assignment to ResourceLock.allow_preemption."""
+    OperationContext.priority, a plain assignment to ResourceLock.allow_preemption; and the remaining public
+    calls that release or end operations (release_all_resources on a live operation, shutdown, run_maintenance)
+    or register a further resource."""
     k = h[0]
     c = w.ctl
     pm = w.sys.priority_manager
+    if k == "relall":
+        # controller.release_all_resources(ctx): public, and the operation stays alive
+        ctx = c.active_operations.get(D.oname(h[1]))
+        if ctx is None:
+            old = w.__dict__.get("ctxs", {}).get(D.oname(h[1]))
+            if old is not None:            # through the retained context of an operation that has ended: a no-op
+                c.release_all_resources(old)
+            return [-1]
+        c.release_all_resources(ctx)
+        return [0]
+    if k == "shutdown":
+        w.sys.shutdown()
+        return [0]
+    if k == "maintain":
+        # CoordinationSystem.run_maintenance(): check_and_boost, then watchdog.execute - ONE call.  The state
+        # between the two (the "before" of that watchdog pass) is looked at from a wrapper around execute.
+        wd = w.sys.watchdog
+        orig = wd.execute
+
+        def execute(controller):
+            v = w.view()
+            w.mid_view = {"view": v, "ref": ref.edges(v) if ref is not None else None}
+            return orig(controller)
+        wd.execute = execute
+        try:
+            m = w.sys.run_maintenance()
+        finally:
+            del wd.execute
+        out = [len(m["priority_boosts"])]
+        for b in m["priority_boosts"]:
+            out += [D.onum(b.operation_id), b.original_priority, b.boosted_priority]
+        for e in m["apoptosis"]:
+            out += [D.onum(e.operation_id), D.REASON[e.reason.value]]
+        return out
+    if k == "reg":
+        # a further resource registered while the history runs; an id is registered once
+        if D.rname(h[1]) in c.resources:
+            return [-1]
+        w.sys.register_resource(D.rname(h[1]), allow_preemption=bool(h[2]))
+        w.res.append(h[1])
+        return [0]
     if k == "boost":
         out = []
         for b in pm.check_and_boost(c):
@@ -166,6 +224,12 @@ class Reference:
                         if wt in view["active"] and owners[r][0] != -1}
         return sorted((wt, owners[r][0], r) for (wt, r) in self.blocked)
 
+    def edges(self, view):
+        """The reference relation at a point INSIDE a call (no attempt of its own there): read only."""
+        owners = view["owners"]
+        return sorted((wt, owners[r][0], r) for (wt, r) in self.blocked
+                      if wt in view["active"] and owners[r][0] != -1)
+
 
 def has_cycle(edges):
     """Independent of the DFS under test: transitive closure."""
@@ -216,16 +280,22 @@ def run_history(case, light=False):
                 steps.append({"op": h, "ret": [], "before": before, "after": after, "ref": ref.step(h, [], after),
                               "key": state_key(w, ref) if (not light or i == n - 1) else None})
                 continue
-            ret = xstep(w, h)
+            ret = xstep(w, h, ref)
             after = w.view()
             refedges = ref.step(h, ret, after)
+            mid = w.__dict__.pop("mid_view", None)
+            cyc_edges = None
+            if not light or i == n - 1:
+                d = w.ctl.check_deadlock()
+                cyc_edges = None if d is None else [(D.onum(a), D.onum(b), D.rnum(r)) for (a, b, r) in d.cycle]
             if not light:
                 obs.append([100] + ret)
                 obs += w.snapshot()
                 obs.append([201] + flat(after["edges"]))
                 obs.append([204] + flat(refedges))
                 obs += prio_rows(w)
-            steps.append({"op": h, "ret": ret, "before": before, "after": after, "ref": refedges,
+            steps.append({"op": h, "ret": ret, "before": before, "after": after, "ref": refedges, "mid": mid,
+                          "cycle_edges": cyc_edges,
                           "key": state_key(w, ref) if (not light or i == n - 1) else None})
         return obs, steps
     finally:
@@ -284,12 +354,18 @@ class C15(Check):
             "complete / abort / release through the retained context of an operation that has ended (no-ops for the model), and - "
             "stripped from the model's case, so anything they change shows as a disagreement - every read-only accessor "
             "(controller.stats, system.health, lock.hold_duration / is_available, graph.get_blocking_chain, check_deadlock, "
-            "watchdog.check / stats, priority manager get_boost / is_boosted / stats) between the calls. Exhaustive part: every history up to depth 5-6 (quick) / 8 (thorough) of the 2x2 "
+            "watchdog.check / stats, priority manager get_boost / is_boosted / stats) between the calls; and with the remaining public "
+            "calls that release or end operations or register resources: controller.release_all_resources on an operation that STAYS "
+            "ALIVE (also through the retained context of an ended one), CoordinationSystem.shutdown, CoordinationSystem.run_maintenance "
+            "(check_and_boost + watchdog.execute as one call; the state between the two is observed from a wrapper around execute), "
+            "registration of a further resource while the history runs. Exhaustive part: every history up to depth 5-6 (quick) / 8 (thorough) of the 2x2 "
             "configurations and depth 4 / 6 of the 3x3 ones; with all operations started first: 2 operations x 2 resources with priority "
             "assignments in the alphabet to depth 5 / 7, and 3 operations (the highest-priority one last in the chain) x 2 resources over "
             "{acquire, release, watchdog, check_and_boost, restore_priority(, clear_all)} to depth 6 / 7, and 2 operations of different "
             "age x 2 resources with max_operation_time and starvation_timeout configured over {acquire, release, watchdog, "
-            "2 s pass, kill, advance} to depth 5 / 6; explored depth-first on the real "
+            "2 s pass, kill, advance} to depth 5 / 6, and 2 operations x 2 resources over {acquire, release, release_all_resources, "
+            "watchdog, shutdown, run_maintenance(, complete, abort)} to depth 6 / 7 and 3 operations x 2 resources over {acquire, "
+            "release_all_resources, watchdog, run_maintenance} to depth 5 / 6; explored depth-first on the real "
             "code with calls on inactive operations (made through the retained context where there is one) dropped when they are "
             "no-ops and a subtree cut when the complete "
             "controller+lock+boost+monitor state was already expanded with at least the same remaining depth; the monitor runs on every "
@@ -299,7 +375,8 @@ class C15(Check):
             "BLOCKED/PREEMPTED acquisition; distinct by content")
     LEVEL_TEXT = ("Coq theorems over all histories of any length and any number of operations/resources - including priority inheritance "
                   "(check_and_boost, restore_priority, clear_all), priority assignments, allow_preemption assignments, time passing, "
-                  "controller.advance, pop_next_waiter, manual kills and watchdog-exempt starts at any point, under any watchdog "
+                  "controller.advance, pop_next_waiter, manual kills and watchdog-exempt starts, release_all_resources on an operation "
+                  "that stays alive, shutdown, run_maintenance and late resource registrations at any point, under any watchdog "
                   "configuration (three time-outs, victim strategy) - about "
                   "the model of the controller (C14/Model.v) and of priority.py (C15/Model.v) with a ghost reference relation: the recorded "
                   "dependency edges equal the reference wait-for relation in every reachable state; nobody is recorded as waiting for itself; "
@@ -309,7 +386,9 @@ class C15(Check):
                   "recorded (= reference) relation whose members are live and really waiting; if the relation has a cycle detect_cycle reports "
                   "one (DFS white/grey/black argument, fuel proved sufficient); the watchdog's victim is a minimal-priority / oldest member, "
                   "is terminated by that pass (as DEADLOCK victim, or as overdue when a time-out applies to it anyway), owns nothing "
-                  "afterwards and the cycle is gone. The model is tied to the code by running both on the same histories; the "
+                  "afterwards and the cycle is gone; release_all_resources on a live operation leaves it active, owning nothing, with "
+                  "nobody recorded as waiting on it and every other recorded wait untouched; shutdown leaves no operation, owner, wait, "
+                  "boost or deadlock; run_maintenance is check_and_boost followed by the watchdog pass. The model is tied to the code by running both on the same histories; the "
                   "reference relation is recomputed independently in Python on every implementation trace.")
     LEVEL_NOTE = ("Trusts: Coq kernel+VM; the correspondence harness; the READING of 'currently blocked' (DESIGN.md C15); fresh operation ids; "
                   "sequential calls. Axioms: none.")
@@ -320,9 +399,13 @@ class C15(Check):
                "read-only accessors and calls through the context of an ended operation are not in the model's alphabet: the model "
                "treats them as no-ops and the correspondence check confirms that on every case that contains them",
                "phase S (progress_timeout) is only reachable through CoordinationSystem.execute_operation (C14), not in C15 histories",
+               "not in the histories (outside 'acquisitions, releases, completions and aborts' made through the controller): calls that "
+               "bypass the controller - ResourceLock.try_acquire / release on a registered lock, DependencyGraph.add_dependency / "
+               "remove_dependency / clear called directly, OperationContext.add_acquired_resource - and re-registering an id that is "
+               "already registered (replaces the lock object)",
                "PriorityBoost records are observed as (operation, original_priority, boosted_priority); reason/timestamp and "
                "PriorityInheritance.total_boosts are not modelled"]
-    ASSUMPTIONS = ["operation ids are fresh per operation", "resources are registered before the history starts",
+    ASSUMPTIONS = ["operation ids are fresh per operation", "a resource id is registered once (before or during the history)",
                    "calls are sequential", "rec_stack of detect_cycle always equals the set of elements of path (modelled as one list)"]
 
     # -- generation --------------------------------------------------------
@@ -477,11 +560,32 @@ class C15(Check):
             pre0 = [["start", 1, 0], ["tick", 1], ["start", 2, 1, strat == "priority"]]
             emit(res, self.explore(res, strat, [0, 1], dC, al=al, prefix0=pre0, wcfg=wc), strategy=strat, wcfg=wc)
         self.extra_cov["explored_transitions_timeouts"] = self.explored_edges - n_before
+        # (d) the remaining public calls that RELEASE or END operations: controller.release_all_resources on an operation
+        #     that stays alive (the bulk release behind complete / abort is itself public), CoordinationSystem.shutdown,
+        #     CoordinationSystem.run_maintenance (check_and_boost + watchdog as one call).  All operations started first.
+        n_before = self.explored_edges
+        dD2, dD3 = (6, 5) if quick else (7, 6)
+        cfgD = [([[1, True], [2, False]], [0, 1])]
+        if not quick:
+            cfgD += [([[1, False], [2, False]], [1, 1]), ([[1, True], [2, True]], [1, 0])]
+        for res, prios in cfgD:
+            al = self.alphabet(2, 2, starts=False, ends=not quick,
+                               extra=[("relall", 1), ("relall", 2), ("shutdown",), ("maintain",)])
+            emit(res, self.explore(res, "priority", prios, dD2, al=al, prefix0=[["start", 1, prios[0]], ["start", 2, prios[1]]]))
+        cfgD3 = [([[1, False], [2, False]], [1, 0, 2])]
+        if not quick:
+            cfgD3.append(([[1, False], [2, True]], [0, 1, 2]))
+        for res, prios in cfgD3:
+            al = [("acq", o, r) for o in (1, 2, 3) for r in (1, 2)] + [("relall", o) for o in (1, 2, 3)] + [("wd",), ("maintain",)]
+            emit(res, self.explore(res, "priority", prios, dD3, al=al, prefix0=[["start", o, prios[o - 1]] for o in (1, 2, 3)]))
+        self.extra_cov["explored_transitions_release_all_shutdown_maintenance"] = self.explored_edges - n_before
         self.extra_cov["maximal_paths_priority_changes"] = npaths
         self.extra_cov["explored_transitions"] = self.explored_edges
         self.extra_cov["exhaustive_depths"] = {"2ops_x_2res": d22, "3ops_x_3res": d33, "2ops_x_2res_setprio": dA,
                                                "3ops_x_2res_inheritance_after_starts": dB,
-                                               "2ops_x_2res_timeouts_tick_advance_kill_after_starts": dC}
+                                               "2ops_x_2res_timeouts_tick_advance_kill_after_starts": dC,
+                                               "2ops_x_2res_release_all_shutdown_maintenance_after_starts": dD2,
+                                               "3ops_x_2res_release_all_maintenance_after_starts": dD3}
         # the monitor already ran on every explored transition; violations found there are kept
         self._explore_violations = list(self.violations)
         return cases
@@ -511,8 +615,14 @@ class C15(Check):
                     second.insert(rng.randint(0, len(second)),
                                   ["acq", rng.randint(1, n), n + 1] if rng.random() < 0.6 else ["acq", n + 1, rng.randint(1, n)])
                 ops += first + second
+                if rng.random() < 0.3:
+                    # a member gives everything back in bulk and STAYS ALIVE, then asks again
+                    m = rng.randint(1, n)
+                    ops.append(["relall", m])
+                    ops += [["acq", rng.randint(1, n), rng.randint(1, n)] for _ in range(rng.randint(0, 2))]
+                    ops.append(["acq", m, rng.randint(1, n)])
                 if rng.random() < 0.7:
-                    ops.append(["wd"])
+                    ops.append(rng.choice([["wd"], ["wd"], ["wd"], ["maintain"]]))
             if not ring and rng.random() < 0.3 and nops >= 3:
                 # priority inversion: a chain of operations, each holding one resource and blocked on the next
                 # one's, the LAST link of the chain having the highest priority; then priority inheritance
@@ -551,10 +661,11 @@ class C15(Check):
                 if rng.random() < 0.6:
                     ops.append(["wd"])
             pchange = rng.choice([0.0, 0.0, 0.12, 0.25])
+            top = nres                      # highest registered resource id so far
             for _ in range(rng.randint(3, 12)):
                 k = rng.random()
                 o = rng.randint(1, nops)
-                r = rng.randint(1, nres) if rng.random() < 0.97 else nres + 1      # rarely: not registered
+                r = rng.randint(1, top) if rng.random() < 0.97 else top + 1        # rarely: not registered
                 if rng.random() < pchange:
                     j = rng.random()
                     if j < 0.4:
@@ -569,18 +680,27 @@ class C15(Check):
                         ops.append(["setpre", rng.choice([r, r, nres + 1]), rng.random() < 0.7])
                 elif k < 0.6:
                     ops.append(["acq", o, r])
-                elif k < 0.72:
+                elif k < 0.69:
                     ops.append(["rel", o, r])
+                elif k < 0.72:
+                    ops.append(["relall", o])
                 elif k < 0.77:
                     ops.append(["complete", o])
                 elif k < 0.82:
                     ops.append(["abort", o])
                 elif k < 0.87:
                     ops.append(["start", rng.randint(1, nops + 1), rng.choice([0, 1, 2])])
+                elif k < 0.885:
+                    ops.append(["maintain"])
+                elif k < 0.895:
+                    ops.append(["reg", rng.choice([top + 1, top + 1, r]), rng.random() < 0.5])
+                    top = max(top, ops[-1][1])
+                elif k < 0.9:
+                    ops.append(["shutdown"])
                 else:
                     ops.append(["wd"])
             if rng.random() < 0.5:
-                ops.append(["wd"])
+                ops.append(rng.choice([["wd"], ["wd"], ["wd"], ["maintain"]]))
             case = {"res": res, "strategy": rng.choice(["priority", "priority", "oldest", "first"]), "ops": ops}
             out.append(self._widen(rng, case, nops, nres))
         return out
@@ -664,10 +784,25 @@ class C15(Check):
                     return Violation("C15/phantom-deadlock", f"step {i} {h}: reported cycle {cyc} is not a cycle of the reference relation {refset}")
                 if any(a not in after["active"] for a in cyc):
                     return Violation("C15/dead-member", f"step {i} {h}: reported cycle {cyc} has members that are not active {after['active']}")
-            if h[0] == "wd":
+                # "... that really wait on each other": every reported (waiter, blocking, resource) is a reference edge
+                bad = [e for e in (st.get("cycle_edges") or []) if tuple(e) not in set(map(tuple, ref))]
+                if bad:
+                    return Violation("C15/phantom-deadlock", f"step {i} {h}: reported cycle edges {bad} are not in the reference relation {refset}")
+            if h[0] in ("wd", "maintain"):
+                evret = events_of(h, st["ret"])
+                if h[0] == "maintain" and st.get("mid"):
+                    # the point between check_and_boost and the watchdog pass of run_maintenance: priority
+                    # inheritance is no acquisition or release, the relation and the verdict are as they were
+                    before = st["mid"]["view"]
+                    mref = st["mid"]["ref"]
+                    if mref is not None and sorted(set(before["edges"])) != sorted(set(mref)):
+                        return Violation("C15/edge-stale", f"step {i} {h}: after check_and_boost the recorded edges {before['edges']} != reference wait-for relation {mref}")
+                    if mref is not None and has_cycle(mref) != (before["cycle"] is not None):
+                        return Violation("C15/missed-deadlock" if before["cycle"] is None else "C15/phantom-deadlock",
+                                         f"step {i} {h}: after check_and_boost reference relation {mref}, check_deadlock() {before['cycle']}")
                 bc = before["cycle"]
-                dl = [st["ret"][j] for j in range(0, len(st["ret"]), 2) if st["ret"][j + 1] == 3]
-                ended = [st["ret"][j] for j in range(0, len(st["ret"]), 2)]
+                dl = [evret[j] for j in range(0, len(evret), 2) if evret[j + 1] == 3]
+                ended = [evret[j] for j in range(0, len(evret), 2)]
                 if bc is None and dl:
                     return Violation("C15/victim-without-deadlock", f"step {i}: watchdog reported a deadlock victim {dl} but no deadlock was reported")
                 if bc is not None:
@@ -719,15 +854,31 @@ class C15(Check):
                 ks.append("boost-applied")
             if h[0] == "restore" and st["ret"] and st["ret"][0] == 1:
                 ks.append("boost-restored")
-            prev_ref = st["ref"]
+            was_ref, prev_ref = prev_ref, st["ref"]
             if st["after"]["cycle"] is not None:
                 ks.append(f"deadlock-reported-len{len(st['after']['cycle'])}")
-            if h[0] == "wd" and st["ret"]:
-                for why in st["ret"][1::2]:
+            if h[0] in ("wd", "maintain") and events_of(h, st["ret"]):
+                evret = events_of(h, st["ret"])
+                for why in evret[1::2]:
                     ks.append("watchdog-" + ["timeout", "starvation", "no-progress", "victim", "manual"][why])
-                if st["before"]["cycle"] is not None and 3 not in st["ret"][1::2]:
+                if st["before"]["cycle"] is not None and 3 not in evret[1::2]:
                     ks.append("deadlock-victim-terminated-as-overdue")
-            if h[0] in ("complete", "abort", "rel") and st["ret"] == [-1] and h[1] in started:
+            if h[0] == "maintain" and st["ret"] and st["ret"][0] > 0:
+                ks.append("maintenance-boosted")
+                if 3 in events_of(h, st["ret"])[1::2]:
+                    ks.append("maintenance-boosted-then-victim")
+            if h[0] == "relall" and st["ret"] == [0]:
+                freed = [r for r, (ow, _h, _p) in st["before"]["owners"].items() if ow == h[1]]
+                ks.append(f"release-all-live-freed={min(len(freed), 2)}")
+                if any(b == h[1] for (_wt, b, _r) in was_ref):
+                    ks.append("release-all-live-with-waiters")
+                if any(wt == h[1] for (wt, _b, _r) in was_ref):
+                    ks.append("release-all-live-while-blocked")
+            if h[0] == "shutdown":
+                ks.append("shutdown-with-waits" if was_ref else "shutdown")
+            if h[0] == "reg" and st["ret"] == [0]:
+                ks.append("registered-late")
+            if h[0] in ("complete", "abort", "rel", "relall") and st["ret"] == [-1] and h[1] in started:
                 ks.append("call-through-context-of-ended-operation")
             if h[0] == "start" and len(h) > 3 and h[3]:
                 ks.append("start-exempt")
